@@ -108,6 +108,15 @@ def _loop_rows(f, s_):
     if s_["kind"] != "for" or any(a not in sc.ITER_SOURCES + ("copied", "cloned", "rev", "by_ref") for a in s_["adapters"]):
         return None
     base = hu.strip_all(s_["base"]) if s_["base"] is not None else None
+    F_ = getattr(f, "_facts", None)
+    for _ in range(3):
+        # a `const` / `static` item stands for its initialiser
+        if base is not None and base.get("k") == "path" and base["path"]["res"].get("k") == "def" and F_ is not None:
+            g = F_.fn(short(base["path"]["res"].get("path", "")), required=False)
+            if g is not None and g.hir and g.hir.get("body") is not None and any(w in str(g.kind) for w in ("Const", "Static")):
+                base = hu.strip_all(g.hir["body"])
+                continue
+        break
     if base is None or base.get("k") != "array":
         return None
     pat = s_["pat"]            # Some(<element pattern>)
@@ -156,6 +165,7 @@ def exported_functions(F):
     """-> (name -> constructor function, unresolved pushes): the (name, Function) pairs that standard_library() pushes
     onto the module's function list, written one by one or as a loop over a literal table of (name, constructor) rows"""
     lib = F.fn("stdlib::standard_library")
+    lib._facts = F
     exported = {}
     unresolved = 0
     for x in hir_walk(lib.hir["body"]):
@@ -296,6 +306,43 @@ def value_comparisons(F, f, e, guards=()):
     return None
 
 
+def minmax_scan_fns(F, root="stdlib::native_minmax"):
+    """the native and the private library helpers it (transitively) calls that run the key function: the scan over the rows
+    may live in any of them (`best_row::<T, LESS>(vm, &rows, key_fn)`)"""
+    f0 = F.fn(root)
+    memo = {}
+
+    def calls_back(g, depth=0):
+        if g.short in memo:
+            return memo[g.short]
+        memo[g.short] = False
+        r = False
+        for y in hir_walk(g.hir["body"]):
+            if y.get("k") in ("mcall", "call"):
+                names = hir_callee(y)
+                if any(c.endswith("Vm::run_function") for c in names):
+                    r = True
+                elif depth < 3:
+                    for c in names:
+                        h = F.fn(c, required=False) if c.startswith("stdlib::") else None
+                        if h is not None and h.hir and not h.is_closure and h is not g and calls_back(h, depth + 1):
+                            r = True
+        memo[g.short] = r
+        return r
+    out = [f0]
+    work = [f0]
+    while work:
+        g = work.pop()
+        for y in hir_walk(g.hir["body"]):
+            if y.get("k") in ("mcall", "call"):
+                for c in hir_callee(y):
+                    h = F.fn(c, required=False) if c.startswith("stdlib::") else None
+                    if h is not None and h.hir and not h.is_closure and h not in out and calls_back(h):
+                        out.append(h)
+                        work.append(h)
+    return out
+
+
 def rule_t(F):
     res = []
     # 1. names used by the card programs: the string that reaches Card::call_native's first parameter - written in place,
@@ -376,9 +423,10 @@ def rule_t(F):
             res.append(bad("C09.T", key, rf.loc(ln), "%s is registered as %s::<%s>, expected native_minmax::<_, %s>" % (name, target, targs, pol)))
     mm = F.fn("stdlib::native_minmax")
     sel = None
-    for x in hir_walk(mm.hir["body"]):
+    for mm_, x in [(g_, x_) for g_ in minmax_scan_fns(F) for x_ in hir_walk(g_.hir["body"])]:
         if x.get("k") not in ("if", "bin", "call") or sel is not None:
             continue
+        mm = mm_
         cs = value_comparisons(F, mm, x) or []
         t = [c for c in cs if any(tr for _g, tr in c["guards"])]
         e = [c for c in cs if c["guards"] and not any(tr for _g, tr in c["guards"])]
@@ -541,49 +589,50 @@ def rule_i(F):
         return [y for y in hir_walk(e) if y.get("k") == "mcall" and y["name"] in ("iter", "iter_mut", "keys", "keys_mut")
                 and any("cao_lang_table::CaoLangTable::" in c or "hash_map::CaoHashMap::" in c for c in hir_callee(y))]
     for name in ("stdlib::native_minmax", "stdlib::native_sorted"):
-        f = F.fn(name)
-        k = 0
-        inits = hu.let_inits(f)
-        loops = []      # (line, loop node, header expression or None)
-        for_loops = set()
-        for s_ in sc.searches(f):
-            if s_["kind"] != "for":
-                continue
-            for y in hir_walk(s_["node"]):
-                if y.get("k") == "loop":
-                    for_loops.add(id(y))
-                    break
-            scrut = hir_strip(s_["node"]["scrut"])
-            # the iterated expression (before iter/enumerate/skip adapters)
-            it = hu.strip_casts(scrut["args"][0]) if scrut.get("k") == "call" and scrut["args"] else scrut
-            loops.append((s_["ln"], s_["node"], it))
-        for y in hir_walk(f.hir["body"]):
-            if y.get("k") == "loop" and id(y) not in for_loops and y.get("source") != "ForLoop":
-                loops.append((y.get("ln"), y, None))
-        loops.sort(key=lambda x: x[0] or 0)
-        for ln, node, it in loops:
-            if not calls_back(node):
-                continue
-            n += 1
-            key = "C09/I/%s/callback-loop-iterates-a-copy%s" % (f.name, "" if k == 0 else "#%d" % k)
-            k += 1
-            borrowed = table_iters(it) if it is not None else []
-            # `while` / `loop`: the iterator is a local created before the loop and advanced inside it
-            if it is None:
-                for y in hir_walk(node):
-                    lid = hir_local_id(y) if y.get("k") == "path" else None
-                    for e_ in inits.get(lid, []) if lid is not None else []:
-                        # ... unless what the local holds is owned (a collected Vec<(Value, Value)>): no reference, no iterator
-                        ty = str(e_.get("ty") or "&")
-                        if "&" in ty or "Iter" in ty or "impl " in ty or "*const" in ty or "*mut" in ty:
-                            borrowed += table_iters(e_)
-            if borrowed:
-                res.append(bad("C09.I", key, f.loc(ln),
-                               "%s calls the script key function inside a loop over `%s` of the input table: a key function that changes the "
-                               "table (through a global or captured variable) reallocates its key list / hash part, the iterator and the "
-                               "references taken from it then point into freed storage" % (f.name, borrowed[0]["name"])))
-            else:
-                res.append(ok("C09.I", key, f.loc(ln), "the loop that calls back iterates over an owned copy of the rows"))
+      nat = F.fn(name)
+      k = 0
+      for f in minmax_scan_fns(F, name):          # the native and the helpers that call back for it
+          inits = hu.let_inits(f)
+          loops = []      # (line, loop node, header expression or None)
+          for_loops = set()
+          for s_ in sc.searches(f):
+              if s_["kind"] != "for":
+                  continue
+              for y in hir_walk(s_["node"]):
+                  if y.get("k") == "loop":
+                      for_loops.add(id(y))
+                      break
+              scrut = hir_strip(s_["node"]["scrut"])
+              # the iterated expression (before iter/enumerate/skip adapters)
+              it = hu.strip_casts(scrut["args"][0]) if scrut.get("k") == "call" and scrut["args"] else scrut
+              loops.append((s_["ln"], s_["node"], it))
+          for y in hir_walk(f.hir["body"]):
+              if y.get("k") == "loop" and id(y) not in for_loops and y.get("source") != "ForLoop":
+                  loops.append((y.get("ln"), y, None))
+          loops.sort(key=lambda x: x[0] or 0)
+          for ln, node, it in loops:
+              if not calls_back(node):
+                  continue
+              n += 1
+              key = "C09/I/%s/callback-loop-iterates-a-copy%s" % (nat.name, "" if k == 0 else "#%d" % k)
+              k += 1
+              borrowed = table_iters(it) if it is not None else []
+              # `while` / `loop`: the iterator is a local created before the loop and advanced inside it
+              if it is None:
+                  for y in hir_walk(node):
+                      lid = hir_local_id(y) if y.get("k") == "path" else None
+                      for e_ in inits.get(lid, []) if lid is not None else []:
+                          # ... unless what the local holds is owned (a collected Vec<(Value, Value)>): no reference, no iterator
+                          ty = str(e_.get("ty") or "&")
+                          if "&" in ty or "Iter" in ty or "impl " in ty or "*const" in ty or "*mut" in ty:
+                              borrowed += table_iters(e_)
+              if borrowed:
+                  res.append(bad("C09.I", key, f.loc(ln),
+                                 "%s calls the script key function inside a loop over `%s` of the input table: a key function that changes the "
+                                 "table (through a global or captured variable) reallocates its key list / hash part, the iterator and the "
+                                 "references taken from it then point into freed storage" % (f.name, borrowed[0]["name"])))
+              else:
+                  res.append(ok("C09.I", key, f.loc(ln), "the loop that calls back iterates over an owned copy of the rows"))
     if n < 2:
         raise AnchorMissing("loops calling run_function in the natives (found %d)" % n)
     return res
@@ -761,9 +810,21 @@ def rule_f(F):
     from cao.facts import hir_walk, hir_callee, hir_strip
     from cao import hirutil as hu
     from cao import scoping as sc
-    res = []
-    f = F.fn("stdlib::native_minmax")
     key = "C09/F/native_minmax/first-of-equal-keys-wins"
+    # the scan may live in the native or in a private helper it hands the rows to
+    out = None
+    for f in minmax_scan_fns(F):
+        out = _rule_f_in(F, f, key)
+        if out[0]["status"] != "undecided" or "not recognised" not in out[0]["msg"] or "selection mechanism" not in out[0]["msg"]:
+            return out
+    return [undecided("C09.F", key, F.fn("stdlib::native_minmax").loc(), "selection mechanism of native_minmax not recognised")]
+
+
+def _rule_f_in(F, f, key):
+    from cao.facts import hir_walk, hir_callee, hir_strip
+    from cao import hirutil as hu
+    from cao import scoping as sc
+    res = []
     sel = []
     for x in hir_walk(f.hir["body"]):
         if x.get("k") == "mcall" and x["name"] in ("min_by", "max_by", "min_by_key", "max_by_key", "min", "max") and \
@@ -1141,7 +1202,10 @@ def rule_k(F):
             for _ln, fields in sites_of(g, depth + 1):
                 inst = []
                 for fld, base in fields:
-                    if fld is None or base is None or not (1 <= base <= g.mir["arg_count"]) or base > len(t["args"]):
+                    if fld is not None and (base is None or not (1 <= base <= g.mir["arg_count"])):
+                        inst.append((fld, None))        # a field of a row the helper holds itself (a row of the slice it scans)
+                        continue
+                    if fld is None or base is None or base > len(t["args"]):
                         inst.append((None, None))       # not a field of a parameter: nothing known at this call
                         continue
                     arg = t["args"][base - 1]
